@@ -168,7 +168,7 @@ impl Property for C07 {
     }
     fn extra(&self, tier: Tier, seed: u64, st: &mut Stats) -> Result<(), (Failure, Value)> {
         if tier == Tier::Thorough {
-            let runs = std::env::var("XSGV_FUZZ_RUNS").ok().and_then(|s| s.parse().ok()).unwrap_or(1_000_000u64);
+            let runs = std::env::var("XSGV_FUZZ_RUNS").ok().and_then(|s| s.parse().ok()).unwrap_or(120_000u64);
             let c = crate::fuzzrun::Campaign { target: "fz_bytes", runs_per_worker: runs, workers: 16, seed, max_len: 4096, seeds: fuzz_seeds(seed) };
             crate::fuzzrun::campaign_for("C07", &c, st)?;
         }
